@@ -156,6 +156,8 @@ struct Snap
     bool drum[16];
     std::string notes[16];     // active notes
     std::string users;         // chip-channel user lists
+    std::string extra;         // controller-like fields, bank, drum flag and active notes of the channels beyond 16 (multi-port songs)
+    size_t nch;                // size of the MIDI channel table
     std::vector<NoteRef> keydown;                    // non-blank active notes with their chip channels
     std::set<std::pair<int, int> > noteset;          // (channel, note) of active notes
     std::set<std::pair<int, int> > userset;          // (channel, note) of chip-channel users
@@ -164,7 +166,7 @@ struct Snap
     {
         std::string s; put(s, mode); put(s, devid); if(with_mvol) put(s, mvol);
         for(int i = 0; i < 16; i++) { s += ctrl[i]; s.append((const char *)bank[i], 3); if(i != skip_drum) s += drum[i] ? 'D' : 'm'; s += notes[i]; s += '|'; }
-        s += users;
+        s += users; s += extra; put(s, nch);
         return s;
     }
 };
@@ -174,18 +176,22 @@ static void take_snap(OPN2_MIDIPlayer *dev, Snap &S)
     OPNMIDIplay *p = P(dev);
     S.mode = p->m_synthMode; S.devid = p->m_sysExDeviceId; S.mvol = p->m_synth->m_masterVolume;
     S.keydown.clear(); S.noteset.clear(); S.userset.clear(); S.held = 0; S.users.clear();
-    for(int i = 0; i < 16; i++)
+    S.extra.clear(); S.nch = p->m_midiChannels.size();
+    std::string xctrl, xnotes;
+    for(int i = 0; i < (int)p->m_midiChannels.size(); i++)
     {
         OPNMIDIplay::MIDIchannel &ch = p->m_midiChannels[(size_t)i];
-        std::string &s = S.ctrl[i]; s.clear();
+        const bool hi = i >= 16;
+        if(hi) { xctrl.clear(); xnotes.clear(); }
+        std::string &s = hi ? xctrl : S.ctrl[i]; s.clear();
         put(s, ch.volume); put(s, ch.expression); put(s, ch.panning); put(s, ch.vibrato); put(s, ch.aftertouch); put(s, ch.portamento);
         put(s, ch.sustain); put(s, ch.softPedal); put(s, ch.portamentoEnable); put(s, ch.portamentoSource); put(s, ch.portamentoRate);
         s.append((const char *)ch.noteAftertouch, 128); put(s, ch.noteAfterTouchInUse); put(s, ch.bend); put(s, ch.bendsense);
         put(s, ch.bendsense_lsb); put(s, ch.bendsense_msb); put(s, ch.vibpos); put(s, ch.vibspeed); put(s, ch.vibdepth); put(s, ch.vibdelay_us);
         put(s, ch.lastlrpn); put(s, ch.lastmrpn); put(s, ch.nrpn); put(s, ch.brightness);
-        S.bank[i][0] = ch.bank_msb; S.bank[i][1] = ch.bank_lsb; S.bank[i][2] = ch.patch;
-        S.drum[i] = ch.is_xg_percussion;
-        std::string &n = S.notes[i]; n.clear();
+        if(!hi) { S.bank[i][0] = ch.bank_msb; S.bank[i][1] = ch.bank_lsb; S.bank[i][2] = ch.patch; S.drum[i] = ch.is_xg_percussion; }
+        else { put(s, ch.bank_msb); put(s, ch.bank_lsb); put(s, ch.patch); put(s, ch.is_xg_percussion); }
+        std::string &n = hi ? xnotes : S.notes[i]; n.clear();
         put(n, ch.gliding_note_count); put(n, ch.extended_note_count);
         for(OPNMIDIplay::MIDIchannel::notes_iterator it = ch.activenotes.begin(); !it.is_end(); ++it)
         {
@@ -198,6 +204,7 @@ static void take_snap(OPN2_MIDIPlayer *dev, Snap &S)
             S.noteset.insert(std::make_pair(i, (int)ni.note));
             if(!ni.isBlank && !nr.chips.empty()) S.keydown.push_back(nr);
         }
+        if(hi) { S.extra += xctrl; S.extra += xnotes; S.extra += '|'; }
     }
     std::vector<OPNMIDIplay::OpnChannel> &cc = VA::chipChannels(p);
     for(size_t c = 0; c < cc.size(); c++)
@@ -297,6 +304,17 @@ static bool establish(OPN2_MIDIPlayer *dev, unsigned id, const Spec &sp)
         API("opn2_rt_noteOff", opn2_rt_noteOff(dev, ch, k0)); API("opn2_rt_noteOff", opn2_rt_noteOff(dev, ch, k1));
         (void)rc;
     }
+    const size_t nch = p->m_midiChannels.size();
+    if(nch > 16 && (sp.ctrls || sp.notes))
+        for(int i = 0, n = r.range(1, 3); i < n; i++)
+        {   // a multi-port song is loaded: channels of the further ports carry state and notes, too
+            uint8_t ch = (uint8_t)(16 + r.below((uint32_t)(nch - 16)));
+            API("opn2_rt_controllerChange", opn2_rt_controllerChange(dev, ch, 7, (uint8_t)r.range(1, 127)));
+            API("opn2_rt_controllerChange", opn2_rt_controllerChange(dev, ch, 11, (uint8_t)r.range(1, 127)));
+            if(r.chance(0.4)) { API("opn2_rt_controllerChange", opn2_rt_controllerChange(dev, ch, 64, 127)); }
+            int rc = 0; API("opn2_rt_noteOn", rc = opn2_rt_noteOn(dev, ch, (uint8_t)r.range(36, 90), (uint8_t)r.range(40, 127))); (void)rc;
+            count("prior_states_with_notes_on_further_ports");
+        }
     if(sp.notes)
         for(int i = 0, n = r.range(1, 3); i < n; i++)
         {
@@ -469,7 +487,7 @@ static void check_effect(Ctx &x, const Judg &j, const Bytes &m, const Snap &a, c
         if(j.mode >= 0 && (int)b.mode != j.mode) x.viol(std::string("oracle:C19:") + pre_noeffect + ":" + kn + ":mode", m, vfmt("mode is %u, expected %d", b.mode, j.mode));
         if(j.mode < 0 && b.mode != MODE_GM && b.mode != MODE_GS && b.mode != MODE_XG) x.viol(std::string("oracle:C19:") + pre_noeffect + ":" + kn + ":mode", m, vfmt("mode is %u", b.mode));
         std::string bad;
-        for(int i = 0; i < 16; i++)
+        for(int i = 0; i < (int)p->m_midiChannels.size(); i++)
         {
             OPNMIDIplay::MIDIchannel &ch = p->m_midiChannels[(size_t)i];
             if(ch.volume != 100) bad += vfmt(" ch%d.volume=%u", i, ch.volume);
@@ -482,7 +500,7 @@ static void check_effect(Ctx &x, const Judg &j, const Bytes &m, const Snap &a, c
             if(ch.softPedal) bad += vfmt(" ch%d.softpedal", i);
             if(ch.portamentoEnable) bad += vfmt(" ch%d.portamento", i);
             if(ch.bendsense_msb != 2 || ch.bendsense_lsb != 0) bad += vfmt(" ch%d.bendrange=%d/%d", i, ch.bendsense_msb, ch.bendsense_lsb);
-            if(bad.size() > 200) break;
+            if(bad.size() > 200 || i >= 16) continue;
             // not pinned by the statement: bank/program (kept or cleared), drum flags (kept or cleared), RPN selection, brightness
             if(memcmp(a.bank[i], b.bank[i], 3) && (b.bank[i][0] || b.bank[i][1] || b.bank[i][2])) bad += vfmt(" ch%d.bank/patch=%u/%u/%u", i, b.bank[i][0], b.bank[i][1], b.bank[i][2]);
             if(b.drum[i] && !a.drum[i]) bad += vfmt(" ch%d.drumflag-set", i);
@@ -635,6 +653,25 @@ static void run_case(Case &c)
             Song sg = gen_song(r, so); std::vector<uint8_t> f = serialize_song(sg);
             ExactBuf in(f); int rl = 0; API("opn2_openData", rl = opn2_openData(dev, in.p, (unsigned long)in.n)); (void)rl;
             count("cases_with_a_music_load_after_setting_the_device_id");
+        }
+        else if(between == 3)
+        {   // a song whose tracks name two or three MIDI ports (FF 09): once its first row has been played the channel table holds
+            // 32 or 48 channels, and real-time calls address the further ports directly
+            const int ports = r.range(2, 3);
+            std::vector<uint8_t> f; put_str(f, "MThd"); put_be(f, 6, 4); put_be(f, 1, 2); put_be(f, (uint64_t)ports + 1, 2); put_be(f, 96, 2);
+            { std::vector<uint8_t> t; t.push_back(0); t.push_back(0xFF); t.push_back(0x51); t.push_back(3); put_be(t, 500000, 3); put_vlq(t, 9600); t.push_back(0xFF); t.push_back(0x2F); t.push_back(0);
+              put_str(f, "MTrk"); put_be(f, t.size(), 4); put_bytes(f, t); }
+            for(int q = 0; q < ports; q++)
+            {
+                std::vector<uint8_t> t; std::string nm = vfmt("Port %c", 'A' + q);
+                t.push_back(0); t.push_back(0xFF); t.push_back(0x09); t.push_back((uint8_t)nm.size()); t.insert(t.end(), nm.begin(), nm.end());
+                t.push_back(0); t.push_back((uint8_t)(0xB0 | q)); t.push_back(7); t.push_back(100);
+                put_vlq(t, 9600); t.push_back(0xFF); t.push_back(0x2F); t.push_back(0);
+                put_str(f, "MTrk"); put_be(f, t.size(), 4); put_bytes(f, t);
+            }
+            ExactBuf in(f); int rl = 0; API("opn2_openData", rl = opn2_openData(dev, in.p, (unsigned long)in.n));
+            double nd = 0; API("opn2_tickEvents", nd = opn2_tickEvents(dev, 0.001, 0.0005)); (void)nd;
+            if(rl == 0 && P(dev)->m_midiChannels.size() > 16) count("cases_with_a_multi_port_song_loaded");
         }
     }
     std::vector<Mut> muts;
